@@ -21,7 +21,7 @@ VC_PATTERNS = [
     r'possible division by zero', r'index out of bounds', r'could not prove termination', r'unwrap',
     r'recommendation not met', r'possible bit shift', r'loop invariant', r'failed this', r'might not be allowed',
     r'slice index', r'array index', r'termination', r'constructed value may fail to meet its declared type invariant',
-    r'cannot show invariant', r'possible truncation', r'possible overflow',
+    r'cannot show invariant', r'possible truncation', r'possible overflow', r'unable to prove',
 ]
 
 
@@ -56,6 +56,8 @@ class VerusRun:
 
 def kind_of(msg: str) -> str:
     m = msg.lower()
+    if 'post-condition' in m:
+        return 'postcondition'
     for k in ('postcondition', 'precondition', 'assertion', 'invariant', 'decreases', 'overflow', 'termination',
               'index', 'division', 'unwrap', 'recommendation', 'truncation'):
         if k in m:
